@@ -1,7 +1,115 @@
-//! C18 - placeholder, replaced below.
-use crate::model::Analysis;
-use crate::oracle::{Aux, Tally, Violation};
+//! C18 - SSH and Gh0st: banner exchanges are answered exactly, malformed ones are not.
 
-pub fn check(_a: &Analysis, _aux: &mut Aux, _t: &mut Tally) -> Vec<Violation> {
-    Vec::new()
+use crate::apps::ssh::{self, SshClass};
+use crate::apps::ghost;
+use crate::model::Analysis;
+use crate::oracle::{size_class, Aux, Tally, Verdict, Violation};
+
+fn judge(
+    payload: &[u8],
+    reply: Option<&[u8]>,
+    carrier: &str,
+    idx: usize,
+    t: &mut Tally,
+    v: &mut Vec<Violation>,
+) {
+    if payload.starts_with(ghost::MAGIC) {
+        t.judged(Verdict::Reply, format!("{}|ghost|{}", carrier, size_class(payload.len() - 5)));
+        match reply {
+            Some(r) if !r.is_empty() => {
+                for (rule, detail) in ghost::check_reply(r) {
+                    v.push(Violation {
+                        prop: "C18",
+                        rule: rule.into(),
+                        key: format!("ghost:{}", rule),
+                        step: idx,
+                        detail,
+                    });
+                }
+            }
+            _ => v.push(Violation {
+                prop: "C18",
+                rule: "ghost-unanswered".into(),
+                key: format!("ghost-unanswered:{}", &carrier[..3]),
+                step: idx,
+                detail: format!("payload starting with the Gh0st magic ({} bytes) over {} was not answered", payload.len(), carrier),
+            }),
+        }
+        return;
+    }
+    match ssh::classify(payload) {
+        SshClass::NotSsh => {}
+        SshClass::Complete { .. } => {
+            let ver = if payload.starts_with(b"SSH-2.0") { "2.0" } else { "1.99" };
+            let lone_cr = payload[..payload.len() - 2].contains(&b'\r');
+            t.judged(
+                Verdict::Reply,
+                format!("{}|ssh|{}|{}|cr{}|sp{}", carrier, ver, size_class(payload.len()), lone_cr as u8, payload.contains(&b' ') as u8),
+            );
+            if lone_cr {
+                t.probe("lone-cr-inside-identification");
+            }
+            match reply {
+                Some(r) if r == ssh::REPLY => {}
+                Some(r) if !r.is_empty() => v.push(Violation {
+                    prop: "C18",
+                    rule: "ssh-reply".into(),
+                    key: "ssh-reply-bytes".into(),
+                    step: idx,
+                    detail: format!("identification answered with {:?} instead of \"SSH-2.0-1\\r\\n\"", String::from_utf8_lossy(&r[..r.len().min(32)])),
+                }),
+                _ => v.push(Violation {
+                    prop: "C18",
+                    rule: "ssh-unanswered".into(),
+                    key: format!("ssh-unanswered:{}:{}", &carrier[..3], ver),
+                    step: idx,
+                    detail: format!("well-formed identification string of {} bytes over {} was not answered", payload.len(), carrier),
+                }),
+            }
+        }
+        c @ (SshClass::Unterminated | SshClass::Malformed(_)) => {
+            let why = match c {
+                SshClass::Malformed(w) => w,
+                _ => "unterminated",
+            };
+            t.judged(Verdict::Silent, format!("{}|ssh|{}", carrier, why));
+            if reply.map(|r| r.starts_with(b"SSH-")).unwrap_or(false) {
+                v.push(Violation {
+                    prop: "C18",
+                    rule: "ssh-answered".into(),
+                    key: format!("ssh-answered:{}", why),
+                    step: idx,
+                    detail: format!("identification string that is {} was answered", why),
+                });
+            }
+        }
+        SshClass::DontCare(w) => t.any(w),
+    }
+}
+
+pub fn check(a: &Analysis, _aux: &mut Aux, t: &mut Tally) -> Vec<Violation> {
+    let mut v = Vec::new();
+    for x in a.udp_exchanges() {
+        let carrier = format!("udp{}", if x.v6 { 6 } else { 4 });
+        judge(x.payload, x.reply, &carrier, a.steps[x.si].idx, t, &mut v);
+    }
+    for st in a.tcp_streams() {
+        if st.dirty || st.segs.is_empty() {
+            continue;
+        }
+        // the handlers are stateless per segment: only a first segment holding the whole
+        // message is judged (a banner cut into several segments is a don't-care here)
+        let s0 = &st.segs[0];
+        let p0 = &st.stream[..s0.len];
+        let v6 = matches!(st.flow.src, std::net::IpAddr::V6(_));
+        let carrier = format!("tcp{}", if v6 { 6 } else { 4 });
+        if st.segs.len() > 1 && !p0.starts_with(ghost::MAGIC) {
+            if let SshClass::Unterminated = ssh::classify(p0) {
+                t.any("identification-continues-in-next-segment");
+                continue;
+            }
+        }
+        judge(p0, s0.reply_app.as_deref(), &carrier, a.steps[s0.si].idx, t, &mut v);
+    }
+    v
 }
